@@ -340,6 +340,20 @@ func le(v uint64, w int) []byte {
 	return b[:w]
 }
 
+// named types of every kind stream.Read is instantiated for (its constraint is a set of ~T terms)
+type (
+	NU8   uint8
+	NU16  uint16
+	NU32  uint32
+	NU64  uint64
+	NI8   int8
+	NI16  int16
+	NI32  int32
+	NI64  int64
+	NBool bool
+	NA32  [32]byte
+)
+
 // RunR executes a reader program over the real stream package; it stops at the first error, as a
 // caller of the helpers would.
 func RunR(p []ROp, r io.ReadSeeker, tr *RTrace) error {
@@ -363,7 +377,40 @@ func runR1(o ROp, r io.ReadSeeker, tr *RTrace) error {
 			var err error
 			tr.k++
 			signed := tr.k%2 == 1
+			named := tr.k%4 >= 2 // every other pair through a NAMED type of the same kind (the constraint is ~uintN / ~intN)
 			switch {
+			case named && o.N == 1 && signed:
+				var x NI8
+				x, err = stream.Read[NI8](r)
+				v = uint64(uint8(x))
+			case named && o.N == 1:
+				var x NU8
+				x, err = stream.Read[NU8](r)
+				v = uint64(x)
+			case named && o.N == 2 && signed:
+				var x NI16
+				x, err = stream.Read[NI16](r)
+				v = uint64(uint16(x))
+			case named && o.N == 2:
+				var x NU16
+				x, err = stream.Read[NU16](r)
+				v = uint64(x)
+			case named && o.N == 4 && signed:
+				var x NI32
+				x, err = stream.Read[NI32](r)
+				v = uint64(uint32(x))
+			case named && o.N == 4:
+				var x NU32
+				x, err = stream.Read[NU32](r)
+				v = uint64(x)
+			case named && o.N == 8 && signed:
+				var x NI64
+				x, err = stream.Read[NI64](r)
+				v = uint64(x)
+			case named && o.N == 8:
+				var x NU64
+				x, err = stream.Read[NU64](r)
+				v = uint64(x)
 			case o.N == 1 && signed:
 				var x int8
 				x, err = stream.Read[int8](r)
@@ -402,7 +449,16 @@ func runR1(o ROp, r io.ReadSeeker, tr *RTrace) error {
 			}
 			tr.Vals = append(tr.Vals, hx.Hex(le(v, o.N)))
 		case "bool":
-			b, err := stream.Read[bool](r)
+			tr.k++
+			var b bool
+			var err error
+			if tr.k%2 == 0 {
+				var nb NBool
+				nb, err = stream.Read[NBool](r)
+				b = bool(nb)
+			} else {
+				b, err = stream.Read[bool](r)
+			}
 			if err != nil {
 				return err
 			}
@@ -414,6 +470,16 @@ func runR1(o ROp, r io.ReadSeeker, tr *RTrace) error {
 		case "arr":
 			switch o.N {
 			case 32:
+				tr.k++
+				if tr.k%2 == 0 {
+					a, err := stream.Read[NA32](r)
+					if err != nil {
+						return err
+					}
+					tr.Vals = append(tr.Vals, hx.Hex(a[:]))
+
+					break
+				}
 				a, err := stream.Read[[32]byte](r)
 				if err != nil {
 					return err
